@@ -63,7 +63,8 @@ def holey_hugr(n, tag="", dels=None):
                 live.remove(i)
     sym.predicate(f"{tag}has_deleted_nodes", len(live) < n)
     if len(live) < n and sym.concretize(sym.bool(f"{tag}readd")):
-        new = h.add_node(_op(9), nodes[0], num_outs=ARITY[9][1], metadata={"new": True})
+        under_last = len(live) > 1 and sym.concretize(sym.bool(f"{tag}readd_under_last_node"))
+        new = h.add_node(_op(9), nodes[live[-1]] if under_last else nodes[0], num_outs=ARITY[9][1], metadata={"new": True})
         live = sorted(live + [new.idx])
         h._arity_of_reused = new.idx
     return h, live
